@@ -278,11 +278,11 @@ def coq_events(tab, ev):
 def coq_check(case, obs):
     ev = obs_events(obs)
     return with_sharing(lambda tab: (
-        f'check_case {coq_world(tab, case)} {tab.ref(CREPO + "/pypyr/pipelines")} '
+        f'check_case {coq_world(tab, case)} {tab.ref(CREPO)} '
         f'{coq_invoke(tab, case)} {coq_events(tab, ev)}'))
 
 
 def coq_model_obs(case):
     return with_sharing(lambda tab: (
-        f'run_case {coq_world(tab, case)} {tab.ref(CREPO + "/pypyr/pipelines")} '
+        f'run_case {coq_world(tab, case)} {tab.ref(CREPO)} '
         f'{coq_invoke(tab, case)}'))
